@@ -768,8 +768,18 @@ def t_indep(b, cn, kinds, flowkind="rw", derived=None, prio=None):
     return b.add(cls(cn, params, locs, tile, fl, prio=pr))
 
 
-def t_chain(b, cn, kind, outer=None, ternary=True):
-    """C(k) or C(i, k): a chain of RW tasks following the iteration order of k."""
+def t_chain(b, cn, kind, outer=None, ternary=True, orient=None, dst="same", src="data"):
+    """C(k) or C(i, k): a chain of RW tasks following the iteration order of k.
+    orient: "tm" ternary dependencies `first ? memory : task` / `hasnext ? task : memory`; "mt" the opposite
+            orientation `!first ? task : memory` / `!hasnext ? memory : task`; "guard" two guarded dependencies each
+            (default: "tm" when `ternary` else "guard");
+    dst:    "same" the last task stores the tile where the first one read it; "other" the last task stores it in a
+            DIFFERENT tile (and, through a guarded dependency, in the tile of origin: the tasks work in place on that
+            one, so the value semantics needs it written too);
+    src:    "data" the first task reads a collection tile; "new" a head class creates the datum (WRITE flow <- NEW),
+            the chain carries it and the last task stores it in a collection tile."""
+    if orient is None:
+        orient = "tm" if ternary else "guard"
     lo, hi, st = SHAPES1()[kind]
     locs, params = [], []
     if outer:
@@ -780,18 +790,36 @@ def t_chain(b, cn, kind, outer=None, ternary=True):
     tl = b.tiles(locs[:1], ["i"]) if outer else C(b.ntiles)
     if not outer:
         b.ntiles += 1
+    tl2 = None
+    if dst == "other" and src == "data":
+        tl2 = b.tiles(locs[:1], ["i"]) if outer else C(b.ntiles)
+        if not outer:
+            b.ntiles += 1
     stv = ev(st, b.g)
     nxt, prv = add("k", st), sub("k", st)
     hasnext = le(nxt, hi) if stv > 0 else ge(nxt, hi)
+    nonempty = le(lo, hi) if stv > 0 else ge(lo, hi)
     first = eq("k", lo)
     pa = (["i"] if outer else [])
-    if ternary:
-        deps = [din(T_data(tl), first, T_task(cn, "A", pa + [prv])),
-                dout(T_task(cn, "A", pa + [nxt]), hasnext, T_data(tl))]
+    hn = cn + "H"
+    if src == "new":
+        hlocs = [locs[0]] if outer else [L_range("i", 0, 0)]
+        b.add(cls(hn, ["i"], hlocs, tl, [flow("A", WRITE, [din(T_new()), dout(T_task(cn, "A", pa + [lo]), nonempty)])]))
+        origin = T_task(hn, "A", ["i"] if outer else [0])
     else:
-        deps = [din(T_data(tl), first), din(T_task(cn, "A", pa + [prv]), lnot(first)),
-                dout(T_task(cn, "A", pa + [nxt]), hasnext), dout(T_data(tl), lnot(hasnext))]
-    b.tags.add("chain:" + kind)
+        origin = T_data(tl)
+    final = T_data(tl2 if tl2 is not None else tl)
+    pred, succ = T_task(cn, "A", pa + [prv]), T_task(cn, "A", pa + [nxt])
+    if orient == "tm":
+        deps = [din(origin, first, pred), dout(succ, hasnext, final)]
+    elif orient == "mt":
+        deps = [din(pred, lnot(first), origin), dout(final, lnot(hasnext), succ)]
+    else:
+        deps = [din(origin, first), din(pred, lnot(first)), dout(succ, hasnext), dout(final, lnot(hasnext))]
+    if tl2 is not None:
+        deps.append(dout(T_data(tl), lnot(hasnext)))
+    b.tags.add("chain:" + kind + (":new" if src == "new" else ":other" if tl2 is not None else "") +
+               (":mt" if orient == "mt" else ""))
     return b.add(cls(cn, params, locs, tl, [flow("A", RW, deps)]))
 
 
@@ -860,6 +888,41 @@ def t_split(b, desc=False):
               [flow("A", RW, [din(T_task("PS", "A", [add(mul("h", 2), 1)])),
                               dout(T_data(_subst_k(tp, add(mul("h", 2), 1))))])]))
     b.tags.add("split:" + ("desc" if desc else "asc"))
+
+
+def t_route(b, kind="asc", orient="tm", src="new"):
+    """ternary output between a task and the collection: the datum of XS(k) goes to the successor XE(k/2) when k is
+    even and is stored in a collection tile (not the one it was read from) when k is odd.
+    orient "tm": `-> even ? A XE(k/2) : D(tq)`; "mt": `-> odd ? D(tq) : A XE(k/2)`.
+    src "new": XS creates the datum (WRITE flow <- NEW), XE modifies it and stores it in a third tile;
+        "data": XS reads its own tile (RW, in place, written back), XE only reads the datum (READ flow)."""
+    sh = SHAPES1()[kind]
+    locs = [_r("k", sh)]
+    inst = [x[0] for x in b.instances(locs, ["k"])]
+    tp = b.tiles(locs, ["k"])
+    tq = b.tiles(locs, ["k"])
+    even = eq(mod("k", 2), 0)
+    ev_k = sorted(x for x in inst if x % 2 == 0)
+    if ev_k:
+        hl = (C(cdiv(ev_k[0], 2)), C(cdiv(ev_k[-1], 2)), C(1))
+    else:
+        hl = (C(1), C(0), C(1))
+    hlocs = [_r("h", hl)]
+    te = b.tiles(hlocs, ["h"])
+    succ = T_task("XE", "A", [div("k", 2)])
+    if orient == "tm":
+        od = dout(succ, even, T_data(tq))
+    else:
+        od = dout(T_data(tq), lnot(even), succ)
+    k2 = mul("h", 2)
+    if src == "new":
+        b.add(cls("XS", ["k"], locs, tp, [flow("A", WRITE, [din(T_new()), od])]))
+        b.add(cls("XE", ["h"], hlocs, te, [flow("A", RW, [din(T_task("XS", "A", [k2])), dout(T_data(te))])]))
+    else:
+        b.add(cls("XS", ["k"], locs, tp, [flow("A", RW, [din(T_data(tp)), od, dout(T_data(tp))])]))
+        b.add(cls("XE", ["h"], hlocs, te, [flow("A", READ, [din(T_task("XS", "A", [k2]))]),
+                                           flow("B", RW, [din(T_data(te)), dout(T_data(te))])]))
+    b.tags.add("route:%s:%s%s" % (kind, src, ":mt" if orient == "mt" else ""))
 
 
 def _subst_k(e, by, name="k"):
@@ -939,6 +1002,18 @@ def shape_programs(quick=True):
         mk(lambda b, kd=kd, i=i: t_pipe(b, kd, rev=(i == 0)), N=5 if kd == "step3" else 4, ts=2)
     for kd in ("asc", "desc2"):
         mk(lambda b, kd=kd: t_new(b, kd), N=4)
+    # final write-back observable: the datum enters from one tile (or NEW) and is stored in ANOTHER tile, through
+    # ternary outputs in both orientations (task ? memory, memory ? task) and through guarded outputs
+    for i, (kd, outer, orient, dst, src) in enumerate((
+            ("asc", None, "tm", "other", "data"), ("desc", "asc", "mt", "other", "data"),
+            ("step2", "desc", "tm", "same", "new"), ("asc_neg", None, "mt", "same", "new"),
+            ("single", "asc", "tm", "other", "data"), ("descexpr", None, "guard", "other", "data"))):
+        mk(lambda b, kd=kd, outer=outer, orient=orient, dst=dst, src=src:
+           t_chain(b, "CH", kd, outer=outer, orient=orient, dst=dst, src=src), N=3 + i % 2, M=2, ts=1 + i % 2)
+    for i, (kd, orient, src) in enumerate((("asc", "tm", "new"), ("desc", "mt", "data"), ("asc_neg", "tm", "data"),
+                                           ("step3", "mt", "new"))):
+        mk(lambda b, kd=kd, orient=orient, src=src: t_route(b, kd, orient, src), N=5 if kd == "step3" else 4,
+           ts=1 + i % 2)
     res = []
     for i, (p, tags) in enumerate(out):
         p["name"] = "vs%03d" % i
@@ -954,7 +1029,7 @@ def random_program(rng, name):
     n = rng.choice([1, 1, 2])
     used = set()
     for _ in range(n):
-        t = rng.choice(["indep", "indep2", "chain", "bcast", "gather", "mask2", "split", "pipe", "new"])
+        t = rng.choice(["indep", "indep2", "chain", "bcast", "gather", "mask2", "split", "pipe", "new", "chain", "route"])
         if t in used:
             continue
         used.add(t)
@@ -967,7 +1042,11 @@ def random_program(rng, name):
                 kinds.append(rng.choice(["rect", "tri_lo", "rect_desc"]).replace("tri_lo", "rect"))
             t_indep(b, "T2", kinds, flowkind=rng.choice(["rw", "rwread"]), prio=rng.choice([None, "up", "down"]))
         elif t == "chain":
-            t_chain(b, "CH", rng.choice(k1), outer=rng.choice([None, "asc", "desc", "step2"]), ternary=rng.random() < 0.5)
+            t_chain(b, "CH", rng.choice(k1), outer=rng.choice([None, "asc", "desc", "step2"]),
+                    orient=rng.choice(["tm", "mt", "guard"]), dst=rng.choice(["same", "other"]),
+                    src=rng.choice(["data", "data", "new"]))
+        elif t == "route":
+            t_route(b, rng.choice(k1), orient=rng.choice(["tm", "mt"]), src=rng.choice(["new", "data"]))
         elif t == "bcast":
             kd = rng.choice(k1)
             t_bcast(b, "P", "Q", kd, rng.choice(k2), rev_q=(kd in ("asc", "desc") and rng.random() < 0.3))
